@@ -48,6 +48,30 @@ META = {
  'C09-d': ('C09', 'Display of BinaryOp::AW prints EW', 'both weak-until operators on renaming-equal operands', ['C06', 'C09', 'C13'], '/tmp/seed-out2/C09/b'),
  'C14-c': ('C14', '\\forall passes literal true as the domains-allowed flag', 'plain entry point, long spelling \\forall with a domain', ['C05', 'C14'], '/tmp/seed-out2/C14/a'),
  'C14-d': ('C14', 'check_hctl_var_support compares with the total number of extra BDD variables', 'network with >= 2 variables and k < depth <= n*k', ['C14'], '/tmp/seed-out2/C14/b'),
+ 'C03-c': ('C03', 'cache-hit return intersects with the unit set only inside foreign restricted scopes', 'extended entry point, constrained regulations, caller-supplied wild-card set not confined to the unit set, used outside restricted scopes in a non-laundering position', ['C03'], '/tmp/seed-out2/C03/a'),
+ 'C03-d': ('C03', 'jump merged into the generic hybrid arm: overwrites and removes the domain entry of its variable', 'jump inside a restricted quantifier of the same variable with a duplicate evaluated afterwards', ['C03', 'C04'], '/tmp/seed-out2/C03/b'),
+ 'C06-c': ('C06', 'parser cancels a negation applied directly to a negation', 'constructor-built tree with a Not node whose child is a Not node', ['C06', 'C05'], '/tmp/seed-out2/C06/a'),
+ 'C06-d': ('C06', 'mk_hybrid renders the domain only for bind / exists (forall forgotten)', 'forall with a domain', ['C06'], '/tmp/seed-out2/C06/b'),
+ 'C07-c': ('C07', 'proposition check looks the name up in the whole BDD variable set', 'context with >= 1 auxiliary variable set and a proposition spelled <var>_extra_<i>', ['C07'], '/tmp/seed-out2/C07/a'),
+ 'C07-d': ('C07', 'memoisation of closed sub-formulas keyed by text only (nesting depth ignored)', 'textually identical closed sub-formula with a quantifier at two different nesting depths', ['C07'], '/tmp/seed-out2/C07/b'),
+ 'C08-c': ('C08', 'tokenizer refactoring: \\forall passes None instead of its domain', 'extended entry point, long spelling of forall with a domain that matters', ['C08', 'C05'], '/tmp/seed-out2/C08/a'),
+ 'C08-d': ('C08', 'plain entry points run the variable-support check on the un-renamed tree', 'sibling quantifiers with different names and exactly depth-many variable sets, plain string API', ['C08', 'C15'], '/tmp/seed-out2/C08/b'),
+ 'C10-c': ('C10', 'wild-card sets evicted from the cache when the duplicate counter runs out outside restricted scopes', 'one wild-card at >= 4 places: two below the same operator inside a foreign restricted scope, two more afterwards outside', ['C10', 'C04'], '/tmp/seed-out2/C10/a'),
+ 'C10-d': ('C10', 'duplicate marking counts only free variables; cached two-entry renamings applied in hash order', 'one-free-variable sub-formula containing a bound variable at two depths one level apart; about half of the hash orders', ['C10', 'C04'], '/tmp/seed-out2/C10/b'),
+ 'C11-c': ('C11', 'eval_eu_saturated pre-filters the variables by var_can_post_within(v, phi1) over all colours', 'T not inside S and a variable without a transition inside S in any colour (~a EU a on a one-way network)', ['C11', 'C01'], '/tmp/seed-out2/C11/a'),
+ 'C11-d': ('C11', 'steady states computed lazily; the operator list forgets EW', 'EW without any other EX-based operator in the same call, steady state in S \\ T', ['C11', 'C13', 'C01'], '/tmp/seed-out2/C11/b'),
+ 'C12-c': ('C12', 'attractor shortcut seeded with the pre-computed steady states', 'attractor pattern inside a restricted scope that excludes a steady state', ['C12', 'C02'], '/tmp/seed-out2/C12/a'),
+ 'C12-d': ('C12', 'steady-state shortcut restricted by intersect_vertices (vertex projection) instead of the unit set', 'fixed-point pattern inside a restricted scope whose domain differs between colours', ['C12', 'C02'], '/tmp/seed-out2/C12/b'),
+ 'C13-c': ('C13', 'eval_ew passes phi1 instead of not_phi2 as the path constraint of the inner AU', 'a state satisfying both operands all of whose paths run through phi into ~phi & ~psi', ['C13', 'C01'], '/tmp/seed-out2/C13/a'),
+ 'C13-d': ('C13', 'eval_aw rewritten as A[phi U psi] | AG phi', 'branching state: one path stays in phi forever, another reaches psi and leaves phi (3 variables, or p AW ~p)', ['C13', 'C01'], '/tmp/seed-out2/C13/b'),
+ 'C15-c': ('C15', 'parse_and_validate checks variable support before renaming (counts names)', 'more distinct names than nesting depth and exactly depth-many variable sets, plain string API', ['C15', 'C08'], '/tmp/seed-out2/C15/a'),
+ 'C15-d': ('C15', 'check_hctl_var_support via extra_state_variables_by_offset(n.saturating_sub(1))', 'variable-free formula on a graph without spare variable sets', ['C15', 'C01'], '/tmp/seed-out2/C15/b'),
+ 'C18-c': ('C18', 'attractor search starts from can_post(reduced); single-state attractors added back from steady_states', 'attractor pattern through the self-loop-free variant (empty steady-state set) on a network with a steady state', ['C18'], '/tmp/seed-out2/C18/a'),
+ 'C18-d': ('C18', 'eval_aw rewritten as AU | AG using the steady states', 'AW with a steady state in phi1 & ~phi2 and a branching phi1 state that reaches both it and phi2', ['C18', 'C13'], '/tmp/seed-out2/C18/b'),
+ 'C19-c': ('C19', 'negation directly on an uninterpreted function dropped ("a negated free function is a free function")', 'the same symbol with both polarities in one update function', ['C19'], '/tmp/seed-out2/C19/a'),
+ 'C19-d': ('C19', 'explosion of an uninterpreted function memoised by symbol only (arguments not in the key)', 'one update function applying the same symbol to two different argument lists', ['C19'], '/tmp/seed-out2/C19/b'),
+ 'C20-c': ('C20', 'eval_eu_saturated pre-filters the variables by var_can_pre(v, phi1) over all colours', 'a variable that moves one way only in the instantiated network while another colour keeps it alive in the parametrised one', ['C20', 'C01'], '/tmp/seed-out2/C20/a'),
+ 'C20-d': ('C20', 'empty-child shortcut for hybrid quantifiers', 'forall with a domain that is empty for some colours only and a child that is empty', ['C20', 'C02'], '/tmp/seed-out2/C20/b'),
  'C19-a': ('C19', 'argument order lost through collect_arguments (ported)', 'same symbol applied with swapped or compound arguments', ['C19']),
  'C19-b': ('C19', 'zero-arity parameters kept as they are; synthetic constants collide with them (ported)', 'user parameter named like a synthetic constant', ['C19']),
 }
@@ -57,7 +81,8 @@ NOTE = {'C20-a': 'NOT detected: same mechanism as C11-a (f64 cardinality), needs
 log = open('/tmp/verify_all.log').read() if os.path.exists('/tmp/verify_all.log') else ''
 log += open('/tmp/verify_b3.log').read() if os.path.exists('/tmp/verify_b3.log') else ''
 log += open('/tmp/verify_b4.log').read() if os.path.exists('/tmp/verify_b4.log') else ''
-log += open('/tmp/verify_r2.log').read() if os.path.exists('/tmp/verify_r2.log') else ''
+for _l in ('/tmp/verify_r2.log', '/tmp/verify_r2b.log', '/tmp/verify_r2c.log'):
+    log += open(_l).read() if os.path.exists(_l) else ''
 for sid, entry in META.items():
     prop, what, needs, caught = entry[:4]
     p, v = sid.split('-')
